@@ -444,7 +444,7 @@ Inductive tok_change (w : world) (c : client) (m : msg) (w' : world) : Prop :=
 | TCNone : w_tokens w' = w_tokens w -> w_tokctr w' = w_tokctr w -> tok_change w c m w'
 | TCMake : forall tk g,
     m_kind m = "maketoken" ->
-    w_tokens w' = w_tokens w ++ [tk] ->
+    w_tokens w' = app (w_tokens w) [tk] ->
     c_group c = Some g -> t_group tk = g ->
     t_name tk = tokname (w_tokctr w) ->                       (* the server chose the name *)
     (exists e, t_expires tk = Some e) ->                       (* it expires *)
@@ -465,6 +465,9 @@ Inductive tok_change (w : world) (c : client) (m : msg) (w' : world) : Prop :=
 Lemma find_In : forall (A : Type) (f : A -> bool) l x, find f l = Some x -> In x l /\ f x = true.
 Proof. intros A f l x H. apply find_some in H. exact H. Qed.
 
+Lemma ts_change : forall w c m w', tok_stable w w' -> tok_change w c m w'.
+Proof. intros w c m w' [H1 H2]. apply TCNone; assumption. Qed.
+
 Lemma groupaction_tokens : forall w h c m r,
   handle_groupaction w h c m = Ok r -> tok_change w c m (r_world r).
 Proof.
@@ -473,22 +476,17 @@ Proof.
     [|finish_ok H; apply TCNone; reflexivity].
   destruct (c_group c) as [g|] eqn:Eg; [|discriminate].
   destruct (String.eqb (m_kind m) "clearchat") eqn:E1.
-  { repeat break_eq; inv_eqs; finish_ok H; apply TCNone;
-      first [reflexivity | apply ts_send_all | apply (proj2 (ts_send_all _ _ _))]. }
+  { repeat break_eq; inv_eqs; finish_ok H; apply ts_change; ts. }
   destruct (String.eqb (m_kind m) "lock" || String.eqb (m_kind m) "unlock") eqn:E2.
-  { repeat break_eq; inv_eqs; finish_ok H; apply TCNone;
-      first [reflexivity | apply ts_enq_all | apply (proj2 (ts_enq_all _ _ _))]. }
+  { repeat break_eq; inv_eqs; finish_ok H; apply ts_change; ts. }
   destruct (String.eqb (m_kind m) "record") eqn:E3.
-  { repeat break_eq; inv_eqs; finish_ok H; apply TCNone;
-      first [reflexivity | apply ts_enq_all | apply (proj2 (ts_enq_all _ _ _))]. }
+  { repeat break_eq; inv_eqs; finish_ok H; apply ts_change; ts. }
   destruct (String.eqb (m_kind m) "unrecord") eqn:E4.
-  { repeat break_eq; inv_eqs; finish_ok H; apply TCNone;
-      first [reflexivity | apply ts_enq_all | apply (proj2 (ts_enq_all _ _ _))]. }
+  { repeat break_eq; inv_eqs; finish_ok H; apply ts_change; ts. }
   destruct (String.eqb (m_kind m) "subgroups") eqn:E5.
-  { repeat break_eq; inv_eqs; finish_ok H; apply TCNone; reflexivity. }
+  { repeat break_eq; inv_eqs; finish_ok H; apply ts_change; ts. }
   destruct (String.eqb (m_kind m) "setdata") eqn:E6.
-  { repeat break_eq; inv_eqs; finish_ok H; apply TCNone;
-      first [reflexivity | apply ts_enq_all | apply (proj2 (ts_enq_all _ _ _))]. }
+  { repeat break_eq; inv_eqs; finish_ok H; apply ts_change; ts. }
   destruct (String.eqb (m_kind m) "maketoken") eqn:E7.
   { apply eqb_true in E7.
     destruct (negb (has_perms c "groupaction" (m_kind m))) eqn:Hp;
@@ -504,10 +502,9 @@ Proof.
     destruct (negb (subset _ (c_perms c))) eqn:Esub; [finish_ok H; apply TCNone; reflexivity|].
     apply negb_false_iff in Esub.
     finish_ok H.
-    eapply TCMake with (g := g); try reflexivity; try assumption.
-    - cbn. exact Egr.
+    eapply TCMake with (g := ts_group t); try reflexivity; try assumption.
     - cbn. eauto.
-    - cbn. intros u gr Hu Hg. rewrite Hu in Etaken. rewrite Egr in Etaken. rewrite Hg in Etaken.
+    - cbn. intros u gr Hu Hg. rewrite Hu in Etaken. rewrite Hg in Etaken.
       destruct (find_user (g_desc gr) u); [discriminate | reflexivity]. }
   destruct (String.eqb (m_kind m) "edittoken") eqn:E8.
   { apply eqb_true in E8.
@@ -523,16 +520,17 @@ Proof.
     finish_ok H.
     unfold find_token in Ef. pose proof (find_In _ _ _ _ Ef) as [Hin Hname].
     apply eqb_true in Hname.
-    eapply TCEdit with (old := old) (g := g); try assumption; try reflexivity.
-    eexists. split; [repeat split|]. split; [|reflexivity].
+    eapply TCEdit with (old := old) (g := t_group old); try assumption; try reflexivity.
+    exists (mkTok (t_name old) (t_group old) (t_user old) (t_perms old)
+                  (match ts_expires t with Some e => Some e | None => t_expires old end)
+                  (match ts_notbefore t with Some n => Some n | None => t_notbefore old end)
+                  (t_issuedby old)).
+    split; [repeat split|]. split; [|reflexivity].
     rewrite Hname. exact Ef. }
   destruct (String.eqb (m_kind m) "listtokens") eqn:E9.
-  { repeat break_eq; inv_eqs; finish_ok H; apply TCNone; reflexivity. }
+  { repeat break_eq; inv_eqs; finish_ok H; apply ts_change; ts. }
   finish_ok H. apply TCNone; reflexivity.
 Qed.
-
-Lemma ts_change : forall w c m w', tok_stable w w' -> tok_change w c m w'.
-Proof. intros w c m w' [H1 H2]. apply TCNone; assumption. Qed.
 
 (* every message, every state: the token store changes only by a maketoken
    or edittoken of a member holding the permissions, as described *)
